@@ -33,7 +33,11 @@ THEOREMS = ["C10_inv_init", "C10_inv_step", "C10_reachable", "C10_no_stale", "C1
             "C10_write_force_fresh", "C10_write_force_satisfiable", "C10_fresh_unique",
             "C10_delete_keeps_other_parent", "C10_no_stale_refuted_old_remove",
             "C10_falsy_hash_refuted_old", "C10_guards_satisfiable"]
-RULE = ("collect as the first operation on freshly built / attached nodes followed by mutations and a second collect "
+RULE = ("bulk updates whose keys are b'' (any node) or b'/', nested-looking paths (generic nodes), then deletes / "
+        "replacements / lookups / reads of those names - on a Directory d[b''] is d itself, so deleting or replacing "
+        "the entry raises after the invalidation, which the model follows - and, generally, failing mutator calls "
+        "right after hashes were cached or nodes collected, followed by successful mutations and reads; "
+        "collect as the first operation on freshly built / attached nodes followed by mutations and a second collect "
         "without any read in between (the runner itself never reads .hash of collected nodes); "
         "chains of 150, 300, 450 nested nodes (must agree exactly with the model) and of 1100, 1500 (more in the "
         "thorough tier; the library's RecursionError there is the open known finding chain-deeper-than-recursion-limit, "
@@ -75,7 +79,13 @@ ASSUMPTIONS = ["histories never create a cycle (trees and DAGs only)",
                "value makes it raise AFTER it has invalidated); the list returned by Directory.entries / get_data() is the "
                "cache itself and is not mutated by the caller",
                "compute_hash never returns None (None is the 'not computed' marker); any other value, b'' included, is fine",
-               "bulk update keys are plain names (non-empty, no '/')",
+               "THEOREMS: bulk update keys are plain names (non-empty, no '/') and no Directory holds an entry named b''; the "
+               "CORRESPONDENCE also runs bulk updates with the key b'' everywhere and with '/'-containing keys on generic "
+               "nodes (the model follows the code there); '/'-containing keys are kept out of Directory bulk updates: "
+               "they are stored raw and every later hash read raises ValueError (invalid entry name)",
+               "recorded corner of /repo, not flagged: with an entry named b'' in a Directory, `del d[b'']` and a bulk update "
+               "replacing it raise ValueError AFTER invalidate_hash() (hashes and collected flags of d and its ancestors "
+               "are dropped by a failed operation)",
                "node.data may be reassigned behind the library's back (op W): the node and everything above it are then "
                "excused from freshness until update_hash(force=True) at a node r; that restores every node below r and "
                "above r (C10_force_restores); nodes neither below nor above r stay excused"]
@@ -157,11 +167,15 @@ class Shadow:
         k = self.kind[p]
         if k in "lc":
             return None
+        if k == "d" and key == b"":
+            return None          # KeyError if absent; if present (bulk update), self[b""] is the directory itself: ValueError
         if k == "n" or b"/" not in key:
             return (p, key) if key in self.kids[p] else None
         k1, k2 = key.rsplit(b"/", 1)
         t = self.getitem(p, k1)
         if t is None or self.kind[t] in "lc":
+            return None
+        if self.kind[t] == "d" and k2 == b"":
             return None
         return (t, k2) if k2 in self.kids[t] else None
 
@@ -231,6 +245,8 @@ class Shadow:
                 return r[0]
         elif t in ("U", "V"):
             items = op[2] if t == "U" else op[3]
+            if self.kind[op[1]] == "d" and b"" in self.kids[op[1]] and any(k in ("", ".") for k, _ in items):
+                return None      # self[b""] is the directory itself: ValueError in the relinking loop, no dict change
             if self.kind[op[1]] in "nd" and items:
                 for k, c in items:
                     self.kids[op[1]][bytes.fromhex(k)] = c
@@ -264,7 +280,7 @@ class Shadow:
                 return True
             for k, c in op[2]:
                 kb = bytes.fromhex(k)
-                if not 0 <= c < n or kb == b"" or b"/" in kb or op[1] in self.reach(c):
+                if not 0 <= c < n or (b"/" in kb and self.kind[op[1]] != "n") or op[1] in self.reach(c):
                     return False
                 if self.kind[op[1]] == "d" and self.kind[c] not in "dc":
                     return False
@@ -374,6 +390,14 @@ def scenario(rng, world, which):
         ops += [["N", "c" if world == "disk" else leaf, leafd], ["S", p2, z, 5], ["S", c, a, p2], ["L", root],
                 rng.choice([["D", p2, z], ["S", p2, z, y], ["S", p2, b, y]]), ["L", root],
                 rng.choice([["D", c, z], ["S", c, z, 5]]), ["L", rng.choice([root, p1])], ["L", root]]
+    elif which == 16:   # an entry named b"" (only a bulk update can create it); on a Directory d[b""] is d itself, so deleting
+        #                 or replacing that entry raises after the invalidation; then a successful mutation and reads
+        e = H(b"")
+        ops += [["S", root, a, p1], ["S", p1, x, c], rng.choice([["H", root], ["L", root], ["M", root] if world == "disk" else ["H", root]]),
+                ["U", p1, [[e, y], [z, y]] if rng.random() < 0.5 else [[e, y]]], ["H", root], ["L", root],
+                rng.choice([["D", p1, e], ["U", p1, [[e, c]]], ["U", p1, [[b, y], [e, y]]], ["D", root, H(b"a/")]]),
+                rng.choice([["H", root], ["I", root], ["L", root], ["G", p1, e]]), ["C", p1, e], ["G", p1, e],
+                rng.choice([["S", p1, b, y], ["D", p1, x], ["S", c, z, y]]), ["H", root], ["L", root], ["H", p1]]
     elif which == 6:    # collect / mutate / collect
         ops += [["S", p1, x, c], ["S", p2, x, c], ["S", root, a, p1], ["S", root, b, p2], ["L", root], ["L", root],
                 ["S", c, z, y], ["L", root], ["R", p1], ["L", root]]
@@ -428,7 +452,11 @@ def rand_op(rng, world, sh, w):
         return ["D", p, H(rand_key(rng, world, sh, p))]
     if t == "U":
         m = rng.choice([0, 1, 2, 2, 3])
-        ks = rng.sample(KEYS + [b"d"], m)
+        pool = KEYS + [b"d"]
+        if rng.random() < 0.25:        # names that item assignment refuses or reads as paths
+            pool = pool + [b"", b""] + ([b"/", b"a/b", b"sub/x", b"a/"] if sh.kind[p] == "n" else [])
+        ks = rng.sample(pool, min(m, len(pool)))
+        ks = list(dict.fromkeys(ks))
         return ["U", p, [[H(k), rng.randrange(n)] for k in ks]]
     if t in ("G", "C"):
         return [t, p, H(rand_key(rng, world, sh, p))]
@@ -503,7 +531,7 @@ def failing_op(rng, world, sh):
     return None
 
 
-def gen_case(rng, world, nops, weights, nscen=16, readall=None):
+def gen_case(rng, world, nops, weights, nscen=17, readall=None):
     sh = Shadow()
     ops = []
     flav = world if world != "mixed" else rng.choice(["generic", "disk"])     # scenario / helper flavour
@@ -528,13 +556,15 @@ def gen_case(rng, world, nops, weights, nscen=16, readall=None):
                 changed = op[1]
             if changed is not None and rng.random() < 0.5:
                 ops.append(first_read(rng, flav, sh, changed))
-            if op[0] == "L" and rng.random() < 0.3:
+            if (op[0] == "L" and rng.random() < 0.3) or (op[0] in ("H", "I", "M", "E", "A", "T") and rng.random() < 0.12):
+                # error paths of the mutators right after hashes were cached / nodes collected
                 for _ in range(rng.choice([1, 1, 2])):
                     f = failing_op(rng, flav, sh)
                     if f:
                         sh.apply(f)          # a no-op on the shadow: the operation fails
                         ops.append(f)
-                ops.append(["L", op[1]])
+                if op[0] == "L":
+                    ops.append(["L", op[1]])
     if readall is None:
         readall = rng.random() < 0.18
     if readall:
@@ -599,7 +629,7 @@ def deep_cases(rng, tier):
     return cases
 
 
-def gen(rng, tier, weights=WEIGHTS_C10, nscen=16):
+def gen(rng, tier, weights=WEIGHTS_C10, nscen=17):
     n_cases = 1000 if tier == "quick" else 30000
     cases = deep_cases(rng, tier)
     for k in range(n_cases):
@@ -1067,9 +1097,13 @@ def impl(c):
         except Exception as e:   # noqa
             tok = err_tok(e)
         failed = tok.startswith("!")
-        if (t in MUT and not failed) or t == "F":
+        # RECORDED corner of /repo (not a violation raised here): when a Directory holds an entry named b"" (bulk update
+        # only), `del d[b""]` / a bulk update replacing it raise ValueError AFTER invalidate_hash(), because d[b""] is d
+        # itself: the failed operation does drop hashes and collected flags.  Such a failure is treated as a change.
+        empty_name = failed and t in MUT and any(isinstance(nd, from_disk.Directory) and b"" in dict.keys(nd) for nd in nodes)
+        if (t in MUT and not failed) or t == "F" or empty_name:
             quiet = {}
-        if failed:
+        if failed and not empty_name:
             # an operation that raises is not a change: in particular it must not clear a collected flag (the next
             # collect would report the node again although nothing changed), which `quiet` - kept - checks as well
             for i, (was, nd) in enumerate(zip(flags, nodes)):
